@@ -1068,6 +1068,14 @@ func (p *PairV2) AddLastSwapStepWithOrders(amount0In, amount1Out *big.Int, buy b
 	}
 
 	p.lockOrders.Lock()
+	// the calculations below can panic (an amount the pool cannot provide, a failed K check): the lock must not stay held,
+	// API handlers run this simulation and their panics are recovered by the server
+	locked := true
+	defer func() {
+		if locked {
+			p.lockOrders.Unlock()
+		}
+	}()
 
 	var orders []*Limit
 	if buy {
@@ -1203,6 +1211,7 @@ func (p *PairV2) AddLastSwapStepWithOrders(amount0In, amount1Out *big.Int, buy b
 		})
 	}
 
+	locked = false
 	p.lockOrders.Unlock()
 
 	pair.updateOrders(oo)
